@@ -7,7 +7,8 @@
 //
 // stdin:  {"srcPlain": [...], "srcWild": [...], "tgtPlain": [...], "tgtWild": [...]}
 // stdout: {"numAttr": n, "kinds": ["ValueUnset", ...] (String() of 0..3), "relations": [String() of 0..],
-//          "cells": [{"sk","sw","tk","tw","samples":[{"s","t","pat","fold","rel":[per attribute]}]}]}
+//
+//	"cells": [{"sk","sw","tk","tw","samples":[{"s","t","pat","fold","rel":[per attribute]}]}]}
 package main
 
 import (
@@ -24,7 +25,7 @@ type sample struct {
 	T    string `json:"t"`
 	Pat  bool   `json:"pat"`
 	Fold bool   `json:"fold"`
-	Rel  []int  `json:"rel"`   // relation of attribute i when only attribute i carries the pair
+	Rel  []int  `json:"rel"`  // relation of attribute i when only attribute i carries the pair
 	Rest bool   `json:"rest"` // every other attribute (ANY against ANY) came out Equal
 }
 
